@@ -118,9 +118,18 @@ P06Level(c, E, lenient) ==
                                  /\ (lenient \/ (Concat(e.occ) = ExpectedDefault(c, E, a) /\ ExpectedDefault(c, E, a) # <<>>))
              [] OTHER -> FALSE
       ELSE lenient \/ (~a.has_env /\ ExpectedDefault(c, E, a) = <<>>)
-P06(def, obs) ==
+\* "the command line if it was supplied there": which arguments the command line supplies (after overrides have removed what
+\* they remove) is the grammar's call; at every level the set of command-line-sourced arguments is the grammar's
+OriginCli(obs, mobs) ==
+  (mobs.outcome = "Ok" /\ Len(mobs.chain) = Len(obs.chain)) =>
+     \A i \in 1..Len(obs.chain) :
+        {obs.chain[i].args[k].id : k \in {j \in 1..Len(obs.chain[i].args) : obs.chain[i].args[j].src = "cli"}}
+          = {mobs.chain[i].args[k].id : k \in {j \in 1..Len(mobs.chain[i].args) : mobs.chain[i].args[j].src = "cli"}}
+P06(def, obs, mobs) ==
   obs.outcome = "Ok" =>
      LET cs == CmdChain(Build(def, NoInherit), obs.chain, 1) IN
+     /\ (~def.s.ignore_errors => OriginCli(obs, mobs))
+     /\
      \* globals copied between levels are judged by C09
      \A i \in 1..Len(cs) :
         /\ P06Level([cs[i] EXCEPT !.args = SelectSeq(@, LAMBDA a : ~a.global)], obs.chain[i], def.s.ignore_errors)
